@@ -6,19 +6,19 @@ import PyaModel.Core.Sig
 Faithful layer, one Lean clause per Python branch:
 
 * `ConditionEvaluator` (type_evaluation.py:336): `visit_Call` :346 (`is_provided` / `is_positional` /
-  `is_keyword` on the bound `Position`, `is_of_type`), `visit_is_of_type` :407, `visit_UnaryOp` :459,
-  `visit_Compare` :466 (`==`/`is` and `!=`/`is not` against a literal = (reversed) `is_of_type` against
+  `is_keyword` on the bound `Position`, `is_of_type`), `visit_is_of_type` :407, `visit_UnaryOp` :461,
+  `visit_Compare` :468 (`==`/`is` and `!=`/`is not` against a literal = (reversed) `is_of_type` against
   `KnownValue(literal)` with `exclude_any=True`; `sys.version_info` / `sys.platform` comparisons enter
-  as their boolean outcome), `visit_BoolOp` :517 (the narrowed / remaining varmap bookkeeping and the
-  `ExitStack` of `narrow_variables`), `ConditionReturn.reverse` :327, `unite_varmaps` :803;
-* `decompose_union` :769, `can_assign_maybe_exclude_any` :793 (= `ca tbl exclude_any`);
+  as their boolean outcome), `visit_BoolOp` :519 (the narrowed / remaining varmap bookkeeping and the
+  `ExitStack` of `narrow_variables`), `ConditionReturn.reverse` :327, `unite_varmaps`, `subtract_unions` :182;
+* `decompose_union` :784, `can_assign_maybe_exclude_any` :808 (= `ca tbl exclude_any`);
 * the positive narrowing of the matched variable: `constrain_value` (stacked_scopes.py:1556) with a
   `ConstraintType.predicate` constraint holding `IsAssignablePredicate(typ, ctx, positive_only=False)`
   (predicates.py:48), which uses `is_overlapping` / `_deliteral` (value.py:3372‥3388) and
   `is_universally_assignable` (predicates.py:31) — note: evaluated *outside* `set_exclude_any`;
-* `EvaluateVisitor` (:604): `visit_block` :643 with `CombinedReturn.make` :304, `visit_If` :731,
-  `visit_Return`, `visit_Pass`, `visit_show_error` :700, `_evaluate_ret` :615;
-* how `Signature.check_call_with_bound_args` (signature.py:1344‥1355) feeds the evaluator: `varmap`
+* `EvaluateVisitor` (:619): `visit_block` :658 with `CombinedReturn.make` :304, `visit_If` :746,
+  `visit_Return`, `visit_Pass`, `visit_show_error` :715, `_evaluate_ret` :630;
+* how `Signature.check_call_with_bound_args` (signature.py:1344‥1365) feeds the evaluator: `varmap`
   and `positions` from the `bound_args` of `bind_arguments` (positions: `pyaCall` of Core/Sig.lean;
   values: `bindValue` below, following the `Composite(...)` each branch of signature.py:822‥1053 stores).
 
@@ -29,9 +29,6 @@ Representation choices (each validated by the correspondence run):
   (first match wins; `dict.update` = prepend); `unite_varmaps` intersects key sets as the code does;
 * a `UserRaisedError` is recorded by its message only (`active_conditions`, i.e. the *detail* text of the
   diagnostic, and the `argument=` node are not modelled).
-* an omitted parameter whose default is `...` holds `KnownValue(Ellipsis)` in the code; `Obj` has no
-  Ellipsis object, the model uses the opaque stand-in `ellipsisTy` (accepted exactly by `object`, `Any`
-  and unions containing them).
 Not modelled: type variables (`tv_map`), `reveal_type` inside evaluators, validation mode, bodies that
 mention names that are not parameters (pyanalyze reports `bad_evaluator` at the definition and the
 `or`-loop raises `TypeError` on them), TypedDict-valued `**kwargs` parameters as `is_of_type` subjects.
@@ -145,7 +142,7 @@ def narrowPos (tbl : ClassTable) (pat v : Ty) : Option Ty :=
 def narrow (tbl : ClassTable) (pat val : Ty) : Ty :=
   unite ((flatten1 val).filterMap (narrowPos tbl pat))
 
-/-- `decompose_union` (:769): the united non-matching members, if the value is a union and at
+/-- `decompose_union` (:784): the united non-matching members, if the value is a union and at
 least one member matches. -/
 def decompose (tbl : ClassTable) (x : Bool) (pat val : Ty) : Option Ty :=
   match unannotate val with
@@ -154,11 +151,20 @@ def decompose (tbl : ClassTable) (x : Bool) (pat val : Ty) : Option Ty :=
     else none
   | _ => none
 
-/-- `visit_is_of_type` (:407) once the variable's value is in hand. -/
+/-- `subtract_unions(left, right)` (:182): the members of `left` that are not (by hash and `==`, a
+`set` look-up) among the members of `right`, united. -/
+def subtractUnions (left right : Ty) : Ty :=
+  match right with
+  | .union [] => left                                  -- `right is NO_RETURN_VALUE`
+  | _ => unite ((flatten1 (unannotate left)).filter fun m => !dictMem m (flatten1 right))
+
+/-- `visit_is_of_type` (:407) once the variable's value is in hand: a full match narrows through
+`constrain_value`; a partial match (some union members match) gives exactly the matched members on the
+positive side (`subtract_unions(val, remaining)`) and the others on the negative side. -/
 def ofTypeVal (tbl : ClassTable) (v : String) (t : Ty) (x : Bool) (val : Ty) : CondRet :=
   if ca tbl x t val then ⟨some [(v, narrow tbl t val)], none⟩
   else match decompose tbl x t val with
-    | some rem => ⟨some [(v, narrow tbl t val)], some [(v, rem)]⟩
+    | some rem => ⟨some [(v, subtractUnions val rem)], some [(v, rem)]⟩
     | none => ⟨none, some []⟩
 
 /-- `visit_is_of_type` (:407). -/
@@ -173,12 +179,18 @@ def kindMatch : KindFn → Pos → Bool
   | .positional, p => (match p with | .args => true | .idx _ => true | _ => false)
   | .keyword, p => (match p with | .kwargs => true | .kw _ => true | _ => false)
 
-/-- `unite_varmaps` (:803). -/
+/-- `unite_varmaps` (:818). -/
 def uniteVarmaps : List VarMap → Option VarMap
   | [] => none
   | m :: ms =>
     some ((m.filter fun kv => ms.all fun vm => (vm.lookup kv.1).isSome).map fun kv =>
       (kv.1, unite ((m :: ms).map fun vm => (vm.lookup kv.1).getD Ty.never)))
+
+/-- the variable map of an early `return` of `visit_BoolOp` (:534‥545 / :560‥569): the deciding operand's
+map, united with the maps earlier partially-matching operands set aside (`remaining_varmaps`) -/
+def stopMap (remaining : List VarMap) : Option VarMap → Option VarMap
+  | none => none
+  | some r => if remaining.isEmpty then some r else uniteVarmaps (remaining ++ [r])
 
 /-! ## `ConditionEvaluator` -/
 
@@ -203,7 +215,7 @@ def evalAnd (tbl : ClassTable) (ps : Positions) (e : Env) (narrowed : VarMap)
   | c :: cs =>
     let r := evalCond tbl ps e c
     match r.left, r.right with
-    | none, rr => ⟨none, rr⟩                                        -- condition returns False
+    | none, rr => ⟨none, stopMap remaining rr⟩                      -- condition returns False
     | some l, none => evalAnd tbl ps (e.over l) (l ++ narrowed) remaining cs
     | some l, some rr => evalAnd tbl ps (e.over l) (l ++ narrowed) (remaining ++ [rr]) cs
 /-- … and for `or` -/
@@ -215,7 +227,7 @@ def evalOr (tbl : ClassTable) (ps : Positions) (e : Env) (narrowed : VarMap)
     match r.left, r.right with
     | none, some rr => evalOr tbl ps (e.over rr) (rr ++ narrowed) remaining cs
     | none, none => ⟨none, none⟩               -- (the Python raises TypeError here: outside the fragment)
-    | some l, none => ⟨some l, none⟩                                -- condition returns True
+    | some l, none => ⟨stopMap remaining (some l), none⟩            -- condition returns True
     | some l, some rr => evalOr tbl ps (e.over rr) (rr ++ narrowed) (remaining ++ [l]) cs
 end
 
@@ -239,7 +251,7 @@ def evalStmt (tbl : ClassTable) (ps : Positions) (e : Env) : Stmt → EvalRet ×
     | some l, none => evalBlock tbl ps (e.over l) [] body
     | none, some rr => evalBlock tbl ps (e.over rr) [] orelse
     | none, none => ([none], [])               -- "Condition must either match or not match"
-/-- `visit_block` (:643); `possible` = `possible_returns`. -/
+/-- `visit_block` (:658); `possible` = `possible_returns`. -/
 def evalBlock (tbl : ClassTable) (ps : Positions) (e : Env) (possible : List (Option Ty)) :
     List Stmt → EvalRet × List String
   | [] => (possible ++ [none], [])
@@ -251,7 +263,7 @@ def evalBlock (tbl : ClassTable) (ps : Positions) (e : Env) (possible : List (Op
       (rest.1, r.2 ++ rest.2)
 end
 
-/-- `_evaluate_ret` (:615). -/
+/-- `_evaluate_ret` (:630). -/
 def finalize (retAnn : Ty) : EvalRet → Ty
   | [x] => x.getD retAnn
   | xs => unite (xs.map fun x => x.getD retAnn)
@@ -263,7 +275,7 @@ def evaluate (tbl : ClassTable) (ps : Positions) (e : Env) (retAnn : Ty) (body :
   let r := evalBlock tbl ps e [] body
   (finalize retAnn r.1, r.2)
 
-/-! ## From a call to the evaluator's context (signature.py:1344‥1355 after `bind_arguments`) -/
+/-! ## From a call to the evaluator's context (signature.py:1344‥1365 after `bind_arguments`) -/
 
 /-- Default of a parameter of an evaluation function: a literal, or `...` (then the variable has
 the parameter's annotation as its type). -/
@@ -322,14 +334,9 @@ def bindValue (ell : Ty → Ty) (as : List EArg) (p : EParam) : Pos → Option T
         | none, k => k)
      | _ => dstarType as)
 
-/-- Stand-in for `KnownValue(Ellipsis)`: an opaque value accepted exactly by `object`, `Any` and unions
-containing them (an anonymous NewType over `object`; `Obj` has no Ellipsis object). -/
-def ellipsisTy : Ty := .newtype 4095 C.object
-
-/-- What the variable of an omitted parameter with default `...` holds. The code (arg_spec.py:495,
-signature.py:855/944/986) stores `KnownValue(Ellipsis)`, the literal default — *not* the annotation the
-document prescribes (finding `ellipsisDefault`; the reference interpreter uses `id` here). -/
-def ellipsisDefaultValue (_ann : Ty) : Ty := ellipsisTy
+/-- What the variable of an omitted parameter with default `...` holds: the parameter's annotation
+(signature.py:1345‥1357, as the document prescribes; before commit d1ebe72 it was the Ellipsis object). -/
+def ellipsisDefaultValue (ann : Ty) : Ty := ann
 
 structure EvalCase where
   params : List EParam
